@@ -80,10 +80,11 @@ func init() {
 		ID: "C05", Title: "routine: superseded instances are cancelled; survivor has latest context+state",
 		Sels: []Sel{
 			{Run: "Groutine", Rules: []string{"R4", "R12"}, Contains: []string{"cancel", "derived-context", "current-context", "status-reset", "go-execute"}},
+			{Run: "Groutine", Rules: []string{"R5b"}},
 			{Run: "R1", Scope: []string{"routine"}, Rules: []string{"R1a"}, Prefixes: []string{"routine."}},
 		},
-		Floors:      map[string]int{"R4": 3, "R12": 5, "R1a": 12},
-		Explanation: "Every supersession path cancels the old instance first (slot cleared/overwritten, context changed, new instance spawned); the new instance's context derives from the ctx handed to start, which at every call site is the container's current context; start resets the exit status; all container and record fields, including the state of StateRoutineContainer, are accessed under RoutineContainer.bcast only (R1a) — the static form of 'also under concurrent calls'." + structural,
+		Floors:      map[string]int{"R4": 3, "R12": 5, "R1a": 12, "R5b": 2},
+		Explanation: "Every supersession path cancels the old instance first (slot cleared/overwritten, context changed, new instance spawned); the new instance's context derives from the ctx handed to start, which at every call site is the container's current context; start resets the exit status; the retry timer restarts only a record that is still the registered one, has exited and has a context, under the lock (a superseded routine is not resurrected); all container and record fields, including the state of StateRoutineContainer, are accessed under RoutineContainer.bcast only (R1a) — the static form of 'also under concurrent calls'." + structural,
 		NotDecided:  "the quiescent-state claim as a statement over histories; 'most recently stored state' beyond the fact that state and routine are replaced in one critical section.",
 		Assumptions: []string{A1, A3, A4},
 		Technique:   "cancel-before-supersede must-precede analysis + static lockset",
